@@ -1,7 +1,7 @@
 ----------------------------- MODULE MC_Block3 -----------------------------
 (* all small integer SPD systems (the catalogue of MC_Nnls) run through the algorithm of Block3 *)
 EXTENDS Block3, TLC
-CONSTANTS Thorough
+CONSTANTS Thorough, MaxN
 Diag == IF Thorough THEN 1 .. 4 ELSE 1 .. 3
 Off == IF Thorough THEN -2 .. 3 ELSE -2 .. 2
 Rhs == IF Thorough THEN -2 .. 3 ELSE {-2, 0, 1, 3}
@@ -13,7 +13,7 @@ MatOf(nn, d, o) == [i \in 1 .. nn |-> [j \in 1 .. nn |->
 VARIABLE q0                     \* objective at the previous Update (monotone descent)
 vars == <<pvars, svars, q0>>
 (* level 0: size; level 1: matrix; level 2: right-hand side and start of the run (three levels so that TLC's workers share the work) *)
-Init == n \in 1 .. 3 /\ A = <<>> /\ b = <<>> /\ x = <<>> /\ y = <<>> /\ F = {} /\ H1 = {} /\ H2 = {} /\ solved = TRUE /\ pc = "pickA" /\ iter = 0
+Init == n \in 1 .. MaxN /\ A = <<>> /\ b = <<>> /\ x = <<>> /\ y = <<>> /\ F = {} /\ H1 = {} /\ H2 = {} /\ solved = TRUE /\ pc = "pickA" /\ iter = 0
         /\ branch = "none" /\ q0 = Zero
 PickA == pc = "pickA" /\ \E d \in [1 .. n -> Diag] : \E o \in [1 .. (n * (n - 1)) \div 2 -> Off] :
             /\ SPD(MatOf(n, d, o), n) /\ A' = MatOf(n, d, o) /\ pc' = "pickB"
@@ -27,7 +27,7 @@ Spec == Init /\ [][Next]_vars
 FairSpec == Spec /\ WF_vars(Next)
 
 Running == pc \in {"release", "solve", "update", "done", "giveup"}
-Inv == Running => NonNegative /\ Consistent /\ Optimal /\ NeverGivesUp
+Inv == Running => NonNegative /\ Consistent /\ Optimal /\ NeverGivesUp /\ StrictIsAnOutcome
 Descent == [][pc = "update" /\ pc' = "release" => RLe(Q(x'), q0)]_vars
 Terminates == <>(pc \in {"done", "giveup"})
 =============================================================================
